@@ -47,9 +47,9 @@ class TypeZoo:
         self.kinds = [(s, "signed"), (u, "unsigned"), (sc, "signed"), (uc, "unsigned"), (bo, "bool"), (utf, "unsigned"), (ad, "unsigned"), (fl, "float"),
                       (s8, "signed"), (u8, "unsigned"), (ptr, "address"), (npt, "address"), (st, "none")]
         # typedef / cv chains
-        for _ in range(4):
+        for _ in range(5):
             t, k = rng.choice(self.kinds[:11])
-            for _ in range(rng.randint(1, 3)):
+            for _ in range(rng.choice([1, 2, 3, 3, 5, 8])):
                 w = Die(rng.choice(["typedef", "const_type", "volatile_type", "restrict_type"]), [("type", rng.choice(["ref4", "ref_udata", "ref_addr"]), t)])
                 if w.tag == DW_TAG["typedef"]:
                     w.attrs.insert(0, ("name", "string", b"td"))
